@@ -1,10 +1,13 @@
 import Imdlv.Model.Digest
+import Imdlv.Model.Peer
 namespace Driver.Util
 open Imdlv
-/-- `sha1 <hex>` / `md5 <hex>` -/
+/-- `sha1 <hex>` / `md5 <hex>` / `utf8 <hex>` → `ok 1|0` -/
 def handle (args : List String) : String :=
   match args with
   | ["sha1", h] => match bytesOfHex h with | some b => "ok " ++ hexOfBytes (Digest.sha1 b) | none => "bad-op"
   | ["md5", h] => match bytesOfHex h with | some b => "ok " ++ hexOfBytes (Digest.md5 b) | none => "bad-op"
+  | ["utf8", h] => match bytesOfHex h with | some b => (if Peer.isUtf8 b then "ok 1" else "ok 0") | none => "bad-op"
+  | ["utf8"] => if Peer.isUtf8 [] then "ok 1" else "ok 0"
   | _ => "bad-op"
 end Driver.Util
